@@ -7,7 +7,8 @@ P=${1:-2}; FILT=${2:-.}
 cd /verif
 HEAD=$(git -C /repo rev-parse --short HEAD)
 mkdir -p seeded/_revalidation /tmp/reval
-python3 - "$FILT" > /tmp/reval/batch.txt <<'PY'
+BATCH=$(mktemp /tmp/reval/batch.XXXXXX)
+python3 - "$FILT" > $BATCH <<'PY'
 import json,glob,os,re,sys
 for d in sorted(glob.glob('seeded/C*-*')):
     if not re.search(sys.argv[1], os.path.basename(d)): continue
@@ -26,4 +27,4 @@ one() {
   echo "$prop-$var: $(grep -E 'demo on HEAD|check rc|patch does not apply|worktree failed' /tmp/reval/$prop-$var.log | tr '\n' ' ')"
 }
 export -f one
-xargs -a /tmp/reval/batch.txt -d '\n' -P "$P" -I{} bash -c 'one "$@"' _ {} | tee seeded/_revalidation/$HEAD.txt
+xargs -a $BATCH -d '\n' -P "$P" -I{} bash -c 'one "$@"' _ {} | tee -a seeded/_revalidation/$HEAD.txt
